@@ -75,13 +75,15 @@ def cfgOf (j : Json) (nb : ℕ) : R BCConfig := do
 def handleSlices (j : Json) : R Json := do
   let nb ← fNat j "nb"
   let c ← cfgOf j nb
-  let cnull ← fBool j "cnull"
+  -- the numbers b for which the harness found `rFactor - b*b*ddThetaFactor` null at every quadrature point
+  let nulls ← fIntList j "nulls"
+  let cnull : Int → Bool := fun b => nulls.contains b
   let modes := (List.range c.N).map (fun I => obj [
     ("m", jInt (mVal c.N I)), ("m2", jInt (m2Int c.N I)),
     ("lneu", toJson (lNeumann c I)), ("uneu", toJson (uNeumann c I)),
     ("coeff_range", jPair (coeffRange c I)), ("stiff_range", jPair (stiffRange c I)), ("size", jNat (modeSize c I))])
   pure <| obj [("start_range", jNat (startRange c)), ("end_range", jNat (endRange c)), ("n_unknowns", jNat (nUnknowns c)),
-    ("poorly", jInts (poorlyDefined c)), ("refuses", toJson (refuses c cnull)), ("modes", Json.arr modes.toArray)]
+    ("poorly", jInts (poorlyDefined c cnull)), ("refuses", toJson (refuses c cnull)), ("modes", Json.arr modes.toArray)]
 
 /-- the five matrices as arrays: `Poisson.assemble`'s definition (`diagsEntry` of `symDiag`/`fullDiag`), with each
     row of the diagonal storage (`symRow`/`fullRow`, lists) computed once -/
@@ -162,8 +164,8 @@ def handleSolver (j : Json) : R Json := do
   let dPab : A3 := mk3 nb ncells nq (fun jj c q => max |get3 dPa jj c q| (condD jj c q))
   let msa := assembleArrays d nb Qa coa (get3 Pab) (get3 dPab)
   let asa := msa.toAssembled
-  let cnull := funcIsNull co.C ncells nq
-  let mut out : List (String × Json) := [("matrices", ms.json), ("abs", msa.json), ("cnull", toJson cnull)]
+  let cnull : Int → Bool := fun b => funcIsNull (fun cc q => co.C cc q - (b : Rat) * (b : Rat) * co.D cc q) ncells nq
+  let mut out : List (String × Json) := [("matrices", ms.json), ("abs", msa.json), ("cnull", toJson (cnull 0))]
   match j.getObjVal? "N" with
   | .error _ => pure (obj out)
   | .ok _ =>
